@@ -19,7 +19,10 @@ CONSTANTS Budget,      \* number of non-default choices per sentence
           OutFile,     \* NDJSON output ("" = no output)
           WrapOps,     \* TRUE: every operator operand that is itself an operator expression is parenthesised (C07)
           OpsOnly,     \* TRUE: only operator templates may be chosen at expression positions (C07)
-          LeafAlts     \* FALSE: leaves keep their default spelling
+          LeafAlts,    \* FALSE: leaves keep their default spelling
+          DenseDepth   \* 0: optional parts default to absent.  d > 0: "dense" derivations - down to nesting depth d below the
+                       \* start symbol an optional clause / flag defaults to PRESENT and leaving it out costs 1, so a small
+                       \* budget enumerates the sentences with (almost) all optional parts of a construct present at once
 VARIABLES work, tape, budget
 vars == <<work, tape, budget>>
 
@@ -33,11 +36,17 @@ Templates(nt) ==
 Selectable(nt, j) == LET t == Templates(nt)[j] IN
   j = 1 \/ ~OpsOnly \/ nt \notin ELevels \/ IsOpTmpl(t)
 
+\* dense marking: the options of a construct at depth <= DenseDepth carry dense > 0
+D(it) == IF "dense" \in DOMAIN it THEN it.dense ELSE 0
+Mark(items, d) == [k \in 1..Len(items) |->
+                     IF d > 0 /\ items[k].i \in {"O", "OPT", "FLAG"} THEN [dense |-> d] @@ items[k]
+                     ELSE IF d > 1 /\ items[k].i = "N" THEN [dense |-> d - 1] @@ items[k]
+                     ELSE items[k]]
 WrapParen(f, inner) == <<OPEN("ParenExpr", f), T("(")>> \o inner \o <<T(")"), CLOSE>>
 Expand(it, t) ==
   IF WrapOps /\ it.nt \in ELevels /\ IsOpTmpl(t) /\ it.f \notin {"", "ROOT"}
   THEN WrapParen(it.f, <<OPEN(t.node, "Expr")>> \o t.items \o <<CLOSE>>)
-  ELSE <<OPEN(t.node, it.f)>> \o t.items \o <<CLOSE>>
+  ELSE <<OPEN(t.node, it.f)>> \o Mark(t.items, D(it)) \o <<CLOSE>>
 
 IsChoice(it) ==
   \/ it.i \in {"O", "L", "FLAG", "ENUM", "VAR", "OPT"}
@@ -60,7 +69,7 @@ Rep(it, n, k) == IF k > n THEN <<>> ELSE (IF k > 1 THEN it.sep ELSE <<>>) \o <<N
 Surf(its) == [k \in 1..Len(its) |-> IF its[k].i = "T" THEN [its[k] EXCEPT !.canon = FALSE] ELSE its[k]]
 Canon(its) == [k \in 1..Len(its) |-> IF its[k].i = "T" THEN [its[k] EXCEPT !.surf = FALSE] ELSE its[k]]
 
-Init == LET r == Flush(<<[i |-> "N", f |-> "ROOT", nt |-> StartNT, free |-> StartFree]>>, <<>>)
+Init == LET r == Flush(<<[i |-> "N", f |-> "ROOT", nt |-> StartNT, free |-> StartFree, dense |-> DenseDepth]>>, <<>>)
         IN work = r[1] /\ tape = r[2] /\ budget = Budget
 
 Choose(w2, cost) == /\ cost <= budget
@@ -75,15 +84,17 @@ Step ==
               /\ Selectable(it.nt, j)
               /\ Choose(Expand(it, Templates(it.nt)[j]) \o rest, IF j = 1 \/ it.free THEN 0 ELSE 1)
      \/ /\ it.i = "O"
-        /\ (Choose(rest, 0) \/ Choose(<<N(it.f, it.nt)>> \o rest, 1))
+        /\ IF D(it) > 0 THEN (Choose(<<[dense |-> D(it) - 1] @@ N(it.f, it.nt)>> \o rest, 0) \/ Choose(rest, 1))
+           ELSE (Choose(rest, 0) \/ Choose(<<N(it.f, it.nt)>> \o rest, 1))
      \/ /\ it.i = "OPT"
-        /\ (Choose(rest, 0) \/ Choose(it.its \o rest, 1))
+        /\ IF D(it) > 0 THEN (Choose(Mark(it.its, D(it)) \o rest, 0) \/ Choose(rest, 1))
+           ELSE (Choose(rest, 0) \/ Choose(it.its \o rest, 1))
      \/ /\ it.i = "L"
         /\ \E n \in it.min..(it.min + 2) :
               Choose((IF it.open THEN <<LOPEN(it.f)>> ELSE <<>>) \o Rep(it, n, 1) \o (IF it.open THEN <<LCLOSE>> ELSE <<>>) \o rest, n - it.min)
      \/ /\ it.i = "FLAG"
-        /\ \/ Choose(<<SET(it.f, FALSE)>> \o rest, 0)
-           \/ Choose(<<SET(it.f, TRUE)>> \o it.its \o rest, 1)
+        /\ \/ Choose(<<SET(it.f, FALSE)>> \o rest, IF D(it) > 0 THEN 1 ELSE 0)
+           \/ Choose(<<SET(it.f, TRUE)>> \o it.its \o rest, IF D(it) > 0 THEN 0 ELSE 1)
      \/ /\ it.i = "ENUM"
         /\ \E j \in 1..Len(it.alts) : Choose(<<SET(it.f, it.alts[j].v)>> \o it.alts[j].items \o rest, IF j = 1 THEN 0 ELSE 1)
      \/ /\ it.i = "VAR"
